@@ -46,6 +46,11 @@ let run_case (line:string) : string =
       ((o, l), if ok = 1 then Some raw else None)) in
     let (vis, ok) = iterate_table table lb (nat_of_int 16) ro rl in
     (if ok then "ok " else "err ") ^ ents_str vis
+  | "dir_ser" | "dir_ser_gz" -> "ok " ^ hex_of_bytes (serialize_entries (tents ts))
+  | "dir_deser" | "dir_deser_gz" ->
+    (match deserialize_checked (bytes_of_hex (tok ts)) with
+     | DOk es -> "ok " ^ ents_str es
+     | DExhaust -> "exhaust")
   | op -> "unknown-op " ^ op
 
 let () =
